@@ -1,5 +1,6 @@
 \* end-to-end scenario environments: capacity {2, 4, 1000} x max_files {2, 32} x max size {8, 1000} x reuse x
 \* (no fault | {err, short, burst, nocreate} x call index {1,2,3,4,5,6,8,10,13}) x stall at write/sync call {0 (none), 1, 3, 6}
+\* x writer failures {none, every 2nd event after partial output, every 3rd after partial output, every 3rd before any output}
 SPECIFICATION Spec
 CONSTANTS
     Caps = {2, 4, 1000}
@@ -9,5 +10,6 @@ CONSTANTS
     FaultKinds = {"err", "short", "burst", "nocreate"}
     FaultAt = {1, 2, 3, 4, 5, 6, 8, 10, 13}
     Stalls = {0, 1, 3, 6}
+    WriterFails <- QuickWriterFails
 INVARIANT Printed
 CHECK_DEADLOCK FALSE
